@@ -763,6 +763,24 @@ def _is_scalar_const_value(val: Optional[ir.Value]) -> bool:
     return True
 
 
+def _is_first_input_passthrough(node: ir.Node) -> bool:
+    """Whether a chain walk may step through ``node`` along its first input only.
+
+    Unary members of ``ALLOWED_ELEMWISE`` qualify as they are.  The broadcasting
+    members (``Max``/``Min``/``Clip``) only commute with a Transpose/Reshape of the
+    first operand when every other operand is a scalar constant.
+    """
+    if node.op_type not in ALLOWED_ELEMWISE:
+        return False
+    if (getattr(node, "domain", "") or "") != "":
+        return False
+    if node.op_type in ELEMENTWISE_BINARY_OPS:
+        return all(
+            iv is None or _is_scalar_const_value(iv) for iv in _node_inputs(node)[1:]
+        )
+    return True
+
+
 def _is_elementwise_node(node: ir.Node) -> bool:
     return (
         node.op_type in ELEMENTWISE_UNARY_OPS or node.op_type in ELEMENTWISE_BINARY_OPS
@@ -1664,7 +1682,7 @@ def remove_redundant_transpose_pairs_ir(graph: ir.Graph) -> None:
                 while steps < 8:
                     steps += 1
                     m = cur
-                    if m.op_type in ALLOWED_ELEMWISE:
+                    if _is_first_input_passthrough(m):
                         chain_nodes.append(m)
                         allowed_nodes.append(m)
                         cur_val = _node_output(m)
@@ -1805,10 +1823,7 @@ def remove_redundant_reshape_pairs_ir(graph: ir.Graph) -> None:
                 prod_node = _producer_node(nodes, v)
                 if prod_node is None:
                     break
-                if (
-                    prod_node.op_type in ALLOWED_ELEMWISE
-                    and (getattr(prod_node, "domain", "") or "") == ""
-                ):
+                if _is_first_input_passthrough(prod_node):
                     allowed_nodes.append(prod_node)
                     v = _first_input(prod_node)
                     continue
